@@ -44,7 +44,7 @@ def calls_signature(sim):
     out = []
     for b in sim.batches:
         for c in b.calls:
-            out.append((c[0], arr_digest(c[1]), int(c[2]), int(c[3])))
+            out.append((c[0], arr_digest(c[1]), None if c[2] is None else int(c[2]), None if c[3] is None else int(c[3])))
     return out
 
 
@@ -98,9 +98,11 @@ class C01(Check):
     thorough = {"runs": 20000, "wall": 900, "item_timeout": 180}
 
     def gen(self, rng, tier, i):
-        cfg = calsim.gen_config(rng, rl_prob=0.3)
+        cfg = calsim.gen_config(rng, rl_prob=0.3, feature=calsim.SAMPLER_KINDS[i % 9])
         if rng.random() < 0.25:
             cfg["convergence_precision"] = rng.choice([0, 0, 1, 2])
+        if rng.random() < 0.15:
+            cfg["cal_seed"] = rng.choice([0, 0, 1, 2 ** 32 - 1, 2 ** 40 + 3])       # "any calibrator seed": falsy and large ones too
         n = rng.randint(1, 12)
         if rng.random() < 0.15:
             calsim.make_scripted_convergence(cfg, rng)
